@@ -99,6 +99,13 @@ func NumText(r *rand.Rand) string {
 	case 7:
 		return "1e3"
 	case 8:
+		// exponent forms include values float64 cannot hold exactly or at all
+		switch r.Intn(4) {
+		case 0:
+			return fmt.Sprintf("%de%d", 1+r.Intn(9), 23+r.Intn(400))
+		case 1:
+			return fmt.Sprintf("%d.%de%d", 1+r.Intn(9), 1+r.Intn(99999), 23+r.Intn(40))
+		}
 		return fmt.Sprintf("%de%d", 1+r.Intn(9), r.Intn(20))
 	case 9:
 		return "123456789012345678901234567890"
